@@ -146,3 +146,105 @@ Proof.
     rewrite <- Hlen, Hz, andb_false_r.
     rewrite func_impl_zip by assumption. reflexivity.
 Qed.
+
+(** ** optional trailing arguments: any prefix of the function arguments that covers the required ones *)
+Lemma hcl_args_zip_le : forall ps vs pre,
+  nodup_b (map ta_name ps) = true -> (length vs <= length ps)%nat -> forallb not_list vs = true ->
+  forallb (fun p => keys_free pre (ta_name p)) ps = true ->
+  flat_map (fun p => match find_attr (pre ++ zip_attrs ps vs) (ta_name p) with
+                     | Some a => match a_V a with AList l => map AStr l | v => [v] end
+                     | None => []
+                     end) ps = vs.
+Proof.
+  induction ps as [|p ps IH]; intros vs pre Hn Hl Hv Hk.
+  - destruct vs; [reflexivity|simpl in Hl; lia].
+  - cbn [map nodup_b] in Hn. apply andb_true_iff in Hn as [Hp Hn]. apply negb_true_iff in Hp.
+    cbn [forallb] in Hk. apply andb_true_iff in Hk as [Hk0 Hk].
+    destruct vs as [|v vs].
+    + (* nothing left: every remaining argument is absent *)
+      cbn [zip_attrs flat_map]. rewrite app_nil_r.
+      assert (E : find_attr pre (ta_name p) = None).
+      { rewrite <- (app_nil_r pre). rewrite find_attr_skip by exact Hk0. reflexivity. }
+      rewrite E. cbn [app].
+      specialize (IH [] pre Hn (Nat.le_0_l _) eq_refl Hk).
+      destruct ps; [reflexivity|]. cbn [zip_attrs] in IH. rewrite app_nil_r in IH. exact IH.
+    + cbn [forallb] in Hv. apply andb_true_iff in Hv as [Hv0 Hv].
+      cbn [flat_map zip_attrs]. rewrite find_attr_skip by exact Hk0.
+      unfold find_attr at 1. cbn [find a_K]. rewrite bytes_eqb_refl. cbn [a_V].
+      assert (Ev : match v with AInt z => [AInt z] | ABool b => [ABool b] | AStr s => [AStr s] | AList l => map AStr l end = [v])
+        by (destruct v; try reflexivity; cbn in Hv0; discriminate).
+      rewrite Ev. cbn [app]. f_equal.
+      replace (pre ++ {| a_K := ta_name p; a_V := v |} :: zip_attrs ps vs)
+        with ((pre ++ [{| a_K := ta_name p; a_V := v |}]) ++ zip_attrs ps vs) by (rewrite <- app_assoc; reflexivity).
+      apply IH; auto; [simpl in Hl; lia|].
+      rewrite forallb_forall in *. intros x Hx. unfold keys_free. rewrite existsb_app. cbn [existsb a_K].
+      rewrite orb_false_r. apply negb_true_iff. apply orb_false_iff. split.
+      * specialize (Hk x Hx). unfold keys_free in Hk. apply negb_true_iff in Hk. exact Hk.
+      * destruct (bytes_eqb (ta_name p) (ta_name x)) eqn:E; [|reflexivity].
+        apply bytes_eqb_eq in E. exfalso. rewrite E in Hp.
+        assert (mem_b (ta_name x) (map ta_name ps) = true) by (apply In_mem_b, in_map; exact Hx). congruence.
+Qed.
+
+Lemma func_params_noslice ps :
+  forallb (fun p => negb (kind_eqb (ta_kind p) KSlice)) ps = true ->
+  func_params ps = (filter ta_required ps, existsb (fun a => negb (ta_required a)) ps).
+Proof.
+  induction ps as [|p ps IH]; intros Hs; [reflexivity|].
+  cbn [forallb] in Hs. apply andb_true_iff in Hs as [Hs0 Hs]. apply negb_true_iff in Hs0.
+  cbn [func_params filter existsb]. rewrite IH by assumption. rewrite Hs0. destruct (ta_required p); reflexivity.
+Qed.
+
+Lemma func_impl_zip_le : forall ps vs,
+  forallb (fun p => negb (kind_eqb (ta_kind p) KSlice)) ps = true ->
+  func_impl ps vs = zip_attrs ps vs.
+Proof.
+  induction ps as [|p ps IH]; intros vs Hs; [destruct vs; reflexivity|].
+  cbn [forallb] in Hs. apply andb_true_iff in Hs as [Hs0 Hs]. apply negb_true_iff in Hs0.
+  cbn [func_impl zip_attrs]. rewrite Hs0. destruct vs as [|v vs]; [reflexivity|]. rewrite IH by assumption. reflexivity.
+Qed.
+
+Lemma filter_all (A : Type) (f : A -> bool) l : existsb (fun a => negb (f a)) l = false -> filter f l = l.
+Proof.
+  induction l as [|x l IH]; intros H; [reflexivity|]. cbn [existsb] in H. apply orb_false_iff in H as [H0 H1].
+  apply negb_false_iff in H0. cbn [filter]. rewrite H0, IH by exact H1. reflexivity.
+Qed.
+
+Lemma prefix_roundtrip reg fmt spec fargs vs :
+  nodup_b (map ts_T reg) = true -> nodup_b (map ts_name reg) = true -> In spec reg ->
+  ts_fmt_custom spec = false ->
+  type_func_args spec = fargs ->
+  forallb (fun p => negb (kind_eqb (ta_kind p) KSlice)) fargs = true ->
+  nodup_b (map ta_name fargs) = true ->
+  vs <> [] ->
+  (length (filter ta_required fargs) <= length vs)%nat -> (length vs <= length fargs)%nat ->
+  forallb (fun '(p, v) => aval_kind_ok (ta_kind p) v) (combine (filter ta_required fargs) vs) = true ->
+  forallb not_list vs = true ->
+  let typ := {| h_T := ts_T spec; h_attrs := zip_attrs fargs vs |} in
+  hcl_type reg fmt typ = Ok (PExpr (HCall (ts_name spec) vs)) /\
+  hcl_eval reg (HCall (ts_name spec) vs) = Ok typ.
+Proof.
+  intros HT HN Hin Hf Efa Hsl Hnd Hvne Hlo Hhi Hk Hnl typ.
+  assert (Hargs : hcl_args spec typ = vs).
+  { unfold hcl_args, typ. cbn [h_attrs]. rewrite Efa.
+    apply (hcl_args_zip_le fargs vs []); auto.
+    rewrite forallb_forall. intros; reflexivity. }
+  assert (Hfne : fargs <> []).
+  { intros ->. destruct vs; [congruence|simpl in Hhi; lia]. }
+  assert (Hle : Nat.ltb (length (ts_attrs spec)) (length vs) = false).
+  { apply Nat.ltb_ge. pose proof (filter_length_le _ (fun a => negb (bytes_eqb (ta_name a) unsigned_name)) (ts_attrs spec)) as L.
+    unfold type_func_args in Efa. rewrite Efa in L. lia. }
+  assert (Hz : Nat.eqb (length vs) 0 = false) by (destruct vs; [congruence|reflexivity]).
+  split.
+  - unfold hcl_type. unfold typ at 1. cbn [h_T]. unfold find_T. rewrite (nodup_find _ ts_T reg spec HT Hin). rewrite Hf.
+    rewrite Hargs, Efa. destruct fargs as [|p0 r0]; [congruence|].
+    destruct vs; [congruence|]. reflexivity.
+  - unfold hcl_eval, find_name. rewrite (nodup_find _ ts_name reg spec HN Hin). rewrite Efa.
+    destruct fargs as [|p0 r0]; [congruence|]. cbv iota. set (F := p0 :: r0) in *.
+    rewrite (func_params_noslice F Hsl).
+    replace (Nat.ltb (length vs) (length (filter ta_required F))) with false by (symmetry; apply Nat.ltb_ge; exact Hlo).
+    assert (Hvar : negb (existsb (fun a => negb (ta_required a)) F) && Nat.ltb (length (filter ta_required F)) (length vs) = false).
+    { destruct (existsb (fun a => negb (ta_required a)) F) eqn:E; [reflexivity|].
+      rewrite (filter_all _ ta_required F E). cbn [negb andb]. apply Nat.ltb_ge. exact Hhi. }
+    rewrite Hvar, Hk. cbn [negb]. rewrite Hle. cbn [andb]. rewrite Hz, andb_false_r.
+    rewrite func_impl_zip_le by assumption. reflexivity.
+Qed.
